@@ -462,7 +462,11 @@ def analyse_sparse(ctx, prop, jobs, limit, pen, tag):
                 k = list(v.values).index(s)
                 state |= ((1 << k) - 1) << v._qubit_start_index
         bs = format(state, f"0{n}b")
-        rows, valid, mk = decode_impl(enc, inst, bs)
+        try:
+            rows, valid, mk = decode_impl(enc, inst, bs)
+        except Exception as e:  # noqa: BLE001
+            violate("C15", "decoding a bitstring of the reported length raised", repr(e)[:100], {"bits": bs})
+            return
         if rows != [list(r) for r in sch] or not valid:
             violate("C15", "the basis state of a feasible schedule does not decode to that schedule", {"schedule": sch, "decoded": rows})
             continue
